@@ -99,11 +99,27 @@ theorem gen_current_layout (c : Cfg) (v : VS) (h : c.esz * v.cap < USIZE) :
   unfold Gen.Fn.current_layout
   by_cases h0 : v.cap = 0 <;> simp [h0, h]
 
+theorem arena_realloc_eq (c : Cfg) (bytes : Nat) (v : VS) :
+    arena_realloc c bytes v =
+      if !c.allocOk || decide (bytes > c.allocLimit) then (v, .ok none)
+      else ({ v with slots := resizeSlots v.slots (bytes / c.esz) }, .ok (some ())) := by
+  unfold arena_realloc arena_serves
+  cases c.allocOk <;> by_cases h : bytes > c.allocLimit <;> simp [h]
+
 /-- `reserve_internal` as translated — new capacity, `Layout::array`, the arena's answer, `handle_alloc_error` for the
-infallible flavour, the assignment of `ptr`/`cap` — is the hand model the callers are proved against -/
+infallible flavour, the assignment of `ptr`/`cap` — is the hand model the callers are proved against (sized elements; for a
+zero-sized `T` the function is only reached to report `CapacityOverflow`) -/
 theorem gen_rv_reserve_internal (c : Cfg) (v : VS) (used extra : Nat) (f : Fallibility) (st : Strategy)
-    (hh : v.cap * 2 < USIZE) (hb : c.esz * v.cap < USIZE) :
+    (he : c.esz ≠ 0) (hh : v.cap * 2 < USIZE) (hb : c.esz * v.cap < USIZE) :
     Gen.Fn.rv_reserve_internal c used extra f st v = reserve_internal c used extra f st v := by
+  have hk2 : ∀ (a1 a2 a3 nc : Nat) (l1 l2 : Layout) (r1 : Except RErr Unit) (u : Unit) (ol : Option Layout) (res : Option Unit) (v' : VS),
+      Gen.Fn.rv_reserve_internal.k_2 c a1 a2 f st a3 nc l1 l2 r1 u ol res v' =
+        match res with
+        | none => if f == .infallible then (v', .panic) else (v', .ok (.error .allocErr))
+        | some _ => ({ v' with cap := nc }, .ok (.ok ())) := by
+    intro a1 a2 a3 nc l1 l2 r1 u ol res v'
+    unfold Gen.Fn.rv_reserve_internal.k_2
+    cases res <;> cases f <;> simp [set_cap, bindV]
   have key : ∀ (nc : Nat), Gen.Fn.rv_reserve_internal.k_1 c used extra f st nc v =
       match arrayLayout c.esz c.eal nc with
       | none => (v, .ok (.error .capOverflow))
@@ -117,24 +133,16 @@ theorem gen_rv_reserve_internal (c : Cfg) (v : VS) (used extra : Nat) (f : Falli
     cases hl : arrayLayout c.esz c.eal nc with
     | none => simp [okOr]
     | some bytes =>
-      simp only [Option.map_some, okOr, gen_alloc_guard, pureV, bindV, gen_current_layout c v hb]
-      have hk2 : ∀ (a1 a2 a3 a4 : Nat) (l1 l2 : Layout) (r1 : Except RErr Unit) (u : Unit) (ol : Option Layout),
-          Gen.Fn.rv_reserve_internal.k_2 c a1 a2 f st a3 nc l1 l2 r1 u ol (arena_serves c bytes) v =
-            if !c.allocOk || decide (bytes > c.allocLimit) then
-              (if f == .infallible then (v, .panic) else (v, .ok (.error .allocErr)))
-            else ({ v with cap := nc, slots := resizeSlots v.slots nc }, .ok (.ok ())) := by
-        intro a1 a2 a3 a4 l1 l2 r1 u ol
-        unfold Gen.Fn.rv_reserve_internal.k_2 arena_serves
-        by_cases hs : (!c.allocOk || decide (bytes > c.allocLimit)) = true
-        · simp only [hs, if_true]
-          cases f <;> simp
-        · simp only [hs, Bool.false_eq_true, if_false]
-          cases f <;> simp [set_cap, bindV]
-      by_cases h0 : v.cap = 0
-      · simp only [h0, if_true]
-        exact hk2 _ _ _ 0 _ _ _ _ _
-      · simp only [h0, if_false, beq_self_eq_true, if_true]
-        exact hk2 _ _ _ 0 _ _ _ _ _
+      have hbytes : bytes = c.esz * nc := by
+        unfold arrayLayout at hl
+        split at hl
+        · cases hl
+        · injection hl with hl; exact hl.symm
+      have hdiv : bytes / c.esz = nc := by rw [hbytes]; exact Nat.mul_div_cancel_left nc (Nat.pos_of_ne_zero he)
+      simp only [Option.map_some, okOr, gen_alloc_guard, pureV, bindV, gen_current_layout c v hb, arena_realloc_eq, hk2]
+      by_cases hs : (!c.allocOk || decide (bytes > c.allocLimit)) = true
+      · by_cases h0 : v.cap = 0 <;> simp [h0, hs]
+      · by_cases h0 : v.cap = 0 <;> simp [h0, hs, hdiv]
   unfold Gen.Fn.rv_reserve_internal reserve_internal reserveInternal
   cases st with
   | exact =>
@@ -165,7 +173,45 @@ theorem gen_rv_reserve_internal (c : Cfg) (v : VS) (used extra : Nat) (f : Falli
         · simp only [hs, if_true]
         · simp only [hs, Bool.false_eq_true, if_false]
 
+theorem gen_dealloc_buffer (c : Cfg) (v : VS) (hb : c.esz * v.cap < USIZE) : Gen.Fn.dealloc_buffer c v = (v, .ok ()) := by
+  unfold Gen.Fn.dealloc_buffer
+  by_cases he : c.esz = 0
+  · simp [he]
+  · have : (c.esz != 0) = true := by simpa using he
+    simp only [this, if_true, gen_current_layout c v hb, pureV, bindV]
+    by_cases h0 : v.cap = 0 <;> simp [h0, arena_dealloc]
+
+/-- `Vec::shrink_to_fit` → `RawVec::shrink_to_fit(len)` as translated is the model's `shrinkToFit` (`none` = panic); the buffer
+the vector holds was served by the arena, so the smaller one is within the arena's limit too -/
+theorem gen_rv_shrink_to_fit (c : Cfg) (v : VS) (hb : c.esz * v.cap < USIZE) (hlim : c.esz * v.cap ≤ c.allocLimit)
+    (hne : capOf c v ≠ v.len) :
+    Gen.Fn.rv_shrink_to_fit c v.len v = match shrinkToFit c v with | some v' => (v', .ok ()) | none => (v, .panic) := by
+  unfold Gen.Fn.rv_shrink_to_fit shrinkToFit
+  rw [if_neg hne]
+  by_cases he : c.esz = 0
+  · simp [he, set_cap, bindV]
+  · have heb : (c.esz == 0) = false := by simpa using he
+    have hcap : capOf c v = v.cap := by simp [capOf, he]
+    rw [hcap] at hne
+    simp only [heb, Bool.false_eq_true, if_false, he]
+    by_cases hlt : v.cap < v.len
+    · have hd : decide (v.cap ≥ v.len) = false := by simp; omega
+      simp [hd, hlt]
+    · have hd : decide (v.cap ≥ v.len) = true := by simp; omega
+      simp only [hd, if_true, hlt, if_false]
+      by_cases h0 : v.len = 0
+      · simp [h0, gen_dealloc_buffer c v hb, reset_new, bindV]
+      · have h0b : (v.len == 0) = false := by simpa using h0
+        have hneb : (v.cap != v.len) = true := by simpa using hne
+        have hle : c.esz * v.len ≤ c.esz * v.cap := Nat.mul_le_mul_left _ (by omega)
+        have h1 : c.esz * v.len < USIZE := by omega
+        have hdiv : c.esz * v.len / c.esz = v.len := Nat.mul_div_cancel_left _ (Nat.pos_of_ne_zero he)
+        have hnl : ¬ c.esz * v.len > c.allocLimit := by omega
+        simp only [h0b, Bool.false_eq_true, if_false, hneb, if_true, hb, h1, h0, arena_realloc_eq, bindV]
+        cases hok : c.allocOk <;> simp [hnl, hdiv, set_cap, bindV]
+
 #print axioms gen_rv_reserve_internal
+#print axioms gen_rv_shrink_to_fit
 #print axioms gen_rv_cap
 #print axioms gen_alloc_guard
 #print axioms gen_amortized_new_size
